@@ -19,3 +19,14 @@ func init() {
 		os.Exit(0)
 	}
 }
+
+func init() {
+	if len(os.Args) > 2 && os.Args[1] == "dbgpl" {
+		p, err := core.Load("")
+		if err != nil {
+			panic(err)
+		}
+		props.DebugPayload(p, os.Args[2:])
+		os.Exit(0)
+	}
+}
